@@ -20,6 +20,8 @@ INF = H.INF
 SMALL = ["one", "chain2", "chain3", "chain4", "indep2", "indep3", "fanout", "fanin", "diamond", "one+chain2", "split2", "split3", "split2>b", "split2!>b", "a>split2"]
 MEDIUM = ["one+chain3", "chain2+chain2", "fanin3", "a>split2>c", "split2+chain2", "diamond+one", "split2+plain>c", "indep4"]
 LARGE = ["split2,split2>c", "split2>diamond", "split3>b", "split3!>b+one", "chain3+b>split2", "split4>b", "chain6", "indep5"]
+MEDIUM_QUICK = ["one+chain3", "chain2+chain2", "fanin3", "a>split2>c", "split2+chain2", "diamond+one"]
+FAIL1_QUICK = ["chain2", "chain3", "fanin", "fanout", "one+chain2", "diamond", "split2!>b"]
 LARGE_QUICK = ["split3>b", "split3!>b+one", "chain3+b>split2", "chain6", "indep5"]
 SAMPLED = ["split2>diamond", "split2,split2>c", "split5>b+split3", "2x chain4 + split2", "chain10", "indep7", "chain3+b>split3"]
 FIDELITY = ["diamond", "split2!>b", "one+chain2", "split2>b"]
@@ -31,9 +33,9 @@ def tasks_async(ctx):
     for sp in SMALL:
         for loop in ("mirror", "real"):
             t.append((H.Opts(sp, loop=loop, vis=(0, INF)), 0, 0))
-            if ctx.thorough or loop == "real":
+            if ctx.thorough or (loop == "real" and sp in FAIL1_QUICK):
                 t.append((H.Opts(sp, loop=loop, vis=(0, INF), fail=1), 0, 1))
-    for sp in MEDIUM:
+    for sp in MEDIUM if ctx.thorough else MEDIUM_QUICK:
         t.append((H.Opts(sp, loop="real", vis=(0, INF)), 0, 2))
         t.append((H.Opts(sp, loop="mirror", vis=(0, INF) if ctx.thorough else (0,)), 0, 2))
     for sp in LARGE if ctx.thorough else LARGE_QUICK:
@@ -91,8 +93,8 @@ def run(ctx):
         d_async = ctx.domain(
             "asynchronous loop: completion orders x lock visibility (exhaustive)",
             bound=(
-                f"{SMALL} (1-4 jobs): every completion order x per-job lock visibility {{seen at next observation, never seen}}, without failure (mirror and real loop) and with <= 1 failing job (real loop" + (", mirror" if ctx.thorough else "") + "); "
-                f"{MEDIUM} (4-6 jobs): every order x per-job visibility (real loop; mirror: " + ("per-job" if ctx.thorough else "all seen") + f"); {LARGE if ctx.thorough else LARGE_QUICK} (5-10 jobs): every order with visibility all-seen / none-seen"
+                f"{SMALL} (1-4 jobs): every completion order x per-job lock visibility {{seen at next observation, never seen}}, without failure (mirror and real loop) and with <= 1 failing job (" + ("both loops" if ctx.thorough else f"real loop, {FAIL1_QUICK}") + "); "
+                f"{MEDIUM if ctx.thorough else MEDIUM_QUICK} (4-6 jobs): every order x per-job visibility (real loop; mirror: " + ("per-job" if ctx.thorough else "all seen") + f"); {LARGE if ctx.thorough else LARGE_QUICK} (5-10 jobs): every order with visibility all-seen / none-seen"
                 + ("; thorough adds several completions per observation and visibility delay 1 for the small set, one failing job / several completions for the medium set, the mirror loop for the large set" if ctx.thorough else "")
             ),
             rule="one case = one history (workflow, loop, script choices); non-trivial = at least two jobs were started",
